@@ -242,6 +242,7 @@ type opState struct {
 	done   chan struct{}
 	chunk  chan string // callprog: "more", "final", "err"
 	sent   int
+	ret    bool // the API call has returned
 }
 
 type driver struct {
@@ -260,9 +261,9 @@ type driver struct {
 	closeN int
 	closed []chan struct{}
 	logbuf strings.Builder
-	// topic/procedure number -> last subscription/registration id announced by the script
-	lastSub map[int]int64
-	lastReg map[int]int64
+	// topic/procedure number -> subscription/registration ids announced by the script
+	lastSub map[int][]int64
+	lastReg map[int][]int64
 	doneCh  chan struct{}
 }
 
@@ -357,22 +358,25 @@ func (d *driver) bindBy(kind string, id int64, req wamp.ID) int {
 		if op.label.Op != kind || op.req != 0 {
 			continue
 		}
-		var want int64
+		if op.ret {
+			continue // it returned without sending (not subscribed / not connected)
+		}
+		want := d.lastReg[op.label.Name]
 		if kind == "unsubscribe" {
 			want = d.lastSub[op.label.Name]
-		} else {
-			want = d.lastReg[op.label.Name]
 		}
-		if want == id {
-			op.req = int64(req)
-			return k
+		for _, w := range want {
+			if w == id {
+				op.req = int64(req)
+				return k
+			}
 		}
 	}
 	// the script announced several ids for the topic / procedure: fall back
 	// to the oldest operation of that kind still without a request id
 	for _, k := range keys {
 		op := d.ops[k]
-		if op.label.Op == kind && op.req == 0 {
+		if op.label.Op == kind && op.req == 0 && !op.ret {
 			op.req = int64(req)
 			return k
 		}
@@ -550,13 +554,13 @@ func (d *driver) sendMsg(m *Msg) {
 	case "subscribed":
 		if m.Req.Op != nil {
 			if op, ok := d.ops[*m.Req.Op]; ok && (op.label.Op == "subscribe" || op.label.Op == "subscribechan") {
-				d.lastSub[op.label.Name] = m.Sub
+				d.lastSub[op.label.Name] = append(d.lastSub[op.label.Name], m.Sub)
 			}
 		}
 	case "registered":
 		if m.Req.Op != nil {
 			if op, ok := d.ops[*m.Req.Op]; ok && op.label.Op == "register" {
-				d.lastReg[op.label.Name] = m.Reg
+				d.lastReg[op.label.Name] = append(d.lastReg[op.label.Name], m.Reg)
 			}
 		}
 	}
@@ -854,6 +858,9 @@ func (d *driver) startOp(l Label) {
 	d.log(Obs{E: "start", O: l.O, Typ: l.Op})
 	go func() {
 		r := d.execOp(op)
+		d.mu.Lock()
+		op.ret = true
+		d.mu.Unlock()
 		d.log(r)
 		close(op.done)
 	}()
@@ -976,7 +983,7 @@ func topFrames(stacks []string) string {
 func runSchedule(t *testing.T, s *Sched, idx int) *Result {
 	res := &Result{ID: s.ID, Idx: idx, Status: "ok", Procs: runtime.GOMAXPROCS(0)}
 	d := &driver{t: t, s: s, ops: map[int]*opState{}, quit: make(chan struct{}), rel: map[int64]chan Label{},
-		lastSub: map[int]int64{}, lastReg: map[int]int64{}, t0: time.Now(), burst: -1, doneCh: make(chan struct{})}
+		lastSub: map[int][]int64{}, lastReg: map[int][]int64{}, t0: time.Now(), burst: -1, doneCh: make(chan struct{})}
 	cp, rp := transport.LinkedPeers()
 	d.rp = rp
 	first := make(chan wamp.Message, 1)
